@@ -222,8 +222,8 @@ Ltac quiet_leaf :=
   constructor; simpl; try reflexivity;
   [ ext_solve | first [left; reflexivity | right; reflexivity] ].
 
-Lemma pool_reg_quiet k pl r : quiet r (pool_reg k pl r).
-Proof. unfold pool_reg, err_of_wr. repeat bm; quiet_leaf. Qed.
+Lemma pool_then_registered_quiet k pl r : quiet r (pool_then_registered k pl r).
+Proof. unfold pool_then_registered, registered_now, err_of_wr. repeat bm; quiet_leaf. Qed.
 
 Lemma hook_return_quiet pl r : quiet r (hook_return pl r).
 Proof. unfold hook_return. repeat bm; quiet_leaf. Qed.
@@ -236,8 +236,7 @@ Proof.
   unfold registration, err_of_wr.
   repeat (bm; try solve [quiet_leaf]);
   try solve [quiet_leaf];
-  try (eapply quiet_trans; [|first [apply pool_reg_quiet|apply hook_return_quiet]];
-       try (eapply quiet_trans; [|apply registered_now_quiet]); quiet_leaf).
+  try (eapply quiet_trans; [|first [apply pool_then_registered_quiet|apply hook_return_quiet]]; quiet_leaf).
 Qed.
 
 Lemma initialization_quiet k pl r : quiet r (initialization k pl r).
@@ -265,7 +264,7 @@ Proof.
   unfold liveness.
   repeat (bm; try solve [quiet_leaf|apply quiet_refl|apply live_registration_quiet]);
   try solve [quiet_leaf|apply quiet_refl|apply live_registration_quiet];
-  (apply live_site_quiet; intros r0; apply live_registration_quiet).
+  (apply live_site_quiet; intros r0; first [apply live_registration_quiet|apply quiet_refl]).
 Qed.
 
 Lemma after_launch_quiet k pl r :
